@@ -12,6 +12,9 @@ import (
 func (fr *frame) safety(b *ssa.BasicBlock, kind string, pos token.Pos, reach, goal Term) {
 	x := fr.x
 	if !x.safety {
+		// without a safety contract the check is not an obligation, but a failed check is still a run-time panic:
+		// the code after it runs only if it passed
+		x.sc.assert(implies(reach, goal))
 		return
 	}
 	x.addObl("safety", fmt.Sprintf("%s.safety.%s", shortFn(fr.fn), kind), kind, pos, reach, goal)
@@ -231,7 +234,44 @@ func (fr *frame) instr(b *ssa.BasicBlock, in ssa.Instruction, reach Term, h Heap
 		x.sc.assert(implies(reach, x.typeFacts(in.Type(), v, h)))
 		fr.bind(in, v)
 		if in.Blocking {
-			return fr.interfere(h)
+			h = fr.interfere(h)
+		}
+		// ghost counters with pattern select:<channel variable> count the times the select took that receive
+		// case; the leaves of the received value are recorded as arguments 0..
+		if x.con != nil {
+			tp, _ := in.Type().(*types.Tuple)
+			recvIdx := 0
+			for k, st := range in.States {
+				name := chanVarName(st.Chan)
+				isRecv := st.Dir == types.RecvOnly
+				var lo, hi int
+				if isRecv && tp != nil && 2+recvIdx < tp.Len() {
+					lo, hi = tupleRange(tp, 2+recvIdx)
+					recvIdx++
+				}
+				for _, cs := range x.con.Counts {
+					if name == "" || cs[1] != "select:"+name {
+						continue
+					}
+					if x.countHits == nil {
+						x.countHits = map[string]int{}
+					}
+					x.countHits[cs[0]]++
+					taken := eq(v.ts[0], num(int64(k)))
+					ck := "$cnt:" + cs[0]
+					x.regKey(ck, "Int")
+					h = h.set(ck, ite(taken, plus(x.hget(h, ck), "1"), x.hget(h, ck)))
+					if isRecv && hi > lo {
+						rt := tp.At(2 + recvIdx - 1).Type()
+						ls := leaves(rt)
+						for i := 0; lo+i < hi && i < 4 && i < len(ls); i++ {
+							ak := fmt.Sprintf("$arg:%s:%d", cs[0], i)
+							x.regKey(ak, "Int")
+							h = h.set(ak, ite(taken, asInt(v.ts[lo+i], ls[i].Sort), x.hget(h, ak)))
+						}
+					}
+				}
+			}
 		}
 		return h
 	case *ssa.SliceToArrayPointer:
@@ -985,6 +1025,15 @@ func (fr *frame) next(in *ssa.Next, reach Term, h Heap) Heap {
 		} else if !isInvalid(kt) && khi > klo {
 			_, ok := x.mapLookup(h, mt, m, Val{ts: res.ts[klo:khi]})
 			facts = append(facts, ok)
+		} else if isInvalid(kt) && !isInvalid(vt) && vhi > vlo && x.regMap(mt) {
+			// `for _, v := range m`: v is the value stored under some (unnamed) key of the map
+			wk := x.freshValNamed(fr.name(in)+"!key", mt.Key())
+			x.sc.assert(x.typeFacts(mt.Key(), wk, h))
+			lv, ok := x.mapLookup(h, mt, m, wk)
+			facts = append(facts, ok)
+			for i := range lv.ts {
+				facts = append(facts, eq(res.ts[vlo+i], lv.ts[i]))
+			}
 		}
 		x.sc.assert(implies(and(reach, res.ts[0]), and(facts...)))
 	}
@@ -1009,6 +1058,12 @@ func calleeName(c *ssa.CallCommon) string {
 		}
 		if i := strings.Index(s, "["); i >= 0 && !strings.HasPrefix(s, "(") {
 			s = s[:i]
+		}
+		// methods of generic types: (*pkg.T[D]).M -> (*pkg.T).M, the key contracts are registered under
+		if strings.HasPrefix(s, "(") {
+			if i, j := strings.Index(s, "["), strings.Index(s, "])."); i >= 0 && j > i {
+				s = s[:i] + s[j+1:]
+			}
 		}
 		return s
 	}
